@@ -742,10 +742,14 @@ class Saver:
             rechunk=rechunk and self.allow_rechunk, run_id=self.md["run_id"]
         )
 
+        # What we store must be as continuous as what the user gets to see:
+        # the consumer's own check may come too late to stop us
+        checked_source = strax.continuity_check(source)
+
         try:
             while not exhausted:
                 try:
-                    chunks = rechunker.receive(next(source))
+                    chunks = rechunker.receive(next(checked_source))
                 except StopIteration:
                     exhausted = True
                     chunks = rechunker.flush()
